@@ -174,7 +174,14 @@ fn data() -> Object {
 
 fn case(ctx: &mut Ctx, parser: &liquid::Parser, data: &Object, kind: &str, ps: &[Piece]) {
     let text = src_l(ps);
-    let obs = render_text(parser, &text, data);
+    let mut obs = render_text(parser, &text, data);
+    // the other way a source reaches the parser: from a file, byte for byte
+    if let Some(via_file) = render_text_via_file(parser, &text, data) {
+        if via_file.tokens() != obs.tokens() {
+            eprintln!("note: Parser::parse_file and Parser::parse disagree on {:?}: parse={} parse_file={}", text, obs.tokens(), via_file.tokens());
+            obs = Obs::Panic("Parser::parse_file and Parser::parse disagree".into());
+        }
+    }
     let mut toks = Vec::new();
     enc_l(ps, &mut toks);
     ctx.emit(format!("c03 {} {} {} #{}", kind, toks.join(" "), obs.tokens(), xs(&text)));
